@@ -44,7 +44,7 @@ bytes and a fixed list of lengths for one canonical PDU of each kind. client: rt
 [version-error PDU] [cache reset] cache response, payload PDUs, end of data: intact => exactly the (action, payload) list \
 and state; every proper prefix => Err; one corrupted header => Err where the reference rules say so, otherwise only \
 termination. non-trivial = sequence with a variable-length PDU (roundtrip/payload), a truncation point strictly inside a \
-PDU body (truncate/client), or a header field actually changed (corrupt/header-enum/client). Items after the wire must be interchangeable with the expected item: ==, same hash, cmp Equal (origins written with an implicit max length included).";
+PDU body (truncate/client), or a header field actually changed (corrupt/header-enum/client). Items after the wire must be interchangeable with the expected item: ==, same hash, cmp Equal (origins written with an implicit max length included). foreign: ASPA PDUs written octet by octet with 0..200000 providers (dense at 16380/16381, 65535/65536, 131072), a reserved octet, then an IPv4 prefix PDU, through Aspa::read, Header::read + read_payload, Payload::read and inside a cache reply through Client::update: refused within the byte bound (only beyond the constructors' limit), or returned after exactly the announced length with exactly the providers on the wire, identical when written again, next PDU intact; non-trivial = more providers than the constructor admits. to_payload of a prefix PDU with host bits set may normalise or refuse.";
 
 //------------ plain-data specs ------------------------------------------------
 
